@@ -180,7 +180,7 @@ def run(prog, rep, tier='quick', config='default'):
             continue
         if not re.search(r'Result<std::option::Option<portfolio::model::currency::CurrencyAndExchangeRate>', g.ty.get(0, '')):
             continue
-        cur_params = [p for p in range(1, g.argc + 1) if re.search(r'&std::option::Option<portfolio::model::currency::Currency>', g.ty.get(p, ''))]
+        cur_params = [p for p in range(1, g.argc + 1) if re.search(r'^&?std::option::Option<&?portfolio::model::currency::Currency>$', g.ty.get(p, ''))]
         if not cur_params:
             continue
         for i, b in g.blocks.items():
@@ -204,7 +204,7 @@ def run(prog, rep, tier='quick', config='default'):
                     dl = mir.op_local(discr) if isinstance(discr, dict) and 'k' in discr else None
                     dd = g.single_def(dl) if dl is not None else None
                     if dd and dd[2] == 'stmt' and dd[3]['r']['rv'] == 'discr' and vals == [0] and not neg and \
-                            re.search(r'^&*std::option::Option<portfolio::model::currency::Currency>', dd[3]['r']['pl'].get('t') or g.ty.get(dd[3]['r']['pl']['l'], '')) and \
+                            re.search(r'^&*std::option::Option<&?portfolio::model::currency::Currency>', dd[3]['r']['pl'].get('t') or g.ty.get(dd[3]['r']['pl']['l'], '')) and \
                             (mir.provenance(g, dd[3]['r']['pl']).params & set(cur_params)):
                         guarded = True
                 k = '%s|no-currency-means-no-rate-only' % g.name
